@@ -158,3 +158,92 @@ func replayDriver(r *run, o *fovc.Obligation, model string) *replayResult {
 	res.Text = b.String()
 	return res
 }
+
+// replayExhaustive (C09): enumerate unions with 1..3 cases x arm lists (subsets, orders, duplicates,
+// payload forms) x with/without default, run the real fc binary on the generated Folang program and
+// compare accept/reject with "covers every case or has a default".  Witness search: it runs only after
+// an obligation of exaustiveCheck has failed, to attach a failing program to it.
+func replayExhaustive(r *run, o *fovc.Obligation, model string) *replayResult {
+	bin, cleanup, err := buildFc()
+	if err != nil {
+		return &replayResult{Text: err.Error()}
+	}
+	defer cleanup()
+	caseNames := []string{"A", "B", "C"}
+	payload := []bool{false, true, false}
+	dir, _ := os.MkdirTemp("", "verifc09")
+	defer os.RemoveAll(dir)
+	tried := 0
+	var b strings.Builder
+	for n := 1; n <= 3; n++ {
+		var unionDef strings.Builder
+		unionDef.WriteString("package main\n\ntype U =\n")
+		for i := 0; i < n; i++ {
+			if payload[i] {
+				fmt.Fprintf(&unionDef, "  | %s of int\n", caseNames[i])
+			} else {
+				fmt.Fprintf(&unionDef, "  | %s\n", caseNames[i])
+			}
+		}
+		// arm lists: sequences over the n cases of length 1..n+1 (covers subsets, orders, duplicates)
+		var seqs [][]int
+		var gen func(cur []int, maxLen int)
+		gen = func(cur []int, maxLen int) {
+			if len(cur) > 0 {
+				seqs = append(seqs, append([]int(nil), cur...))
+			}
+			if len(cur) == maxLen {
+				return
+			}
+			for c := 0; c < n; c++ {
+				gen(append(cur, c), maxLen)
+			}
+		}
+		gen(nil, n+1)
+		for _, seq := range seqs {
+			for _, def := range []bool{false, true} {
+				for _, bind := range []bool{false, true} {
+					var src strings.Builder
+					src.WriteString(unionDef.String())
+					src.WriteString("\nlet f (u:U) =\n  match u with\n")
+					covered := map[int]bool{}
+					for k, c := range seq {
+						covered[c] = true
+						switch {
+						case payload[c] && bind:
+							fmt.Fprintf(&src, "  | %s x -> %d\n", caseNames[c], k)
+						case payload[c]:
+							fmt.Fprintf(&src, "  | %s _ -> %d\n", caseNames[c], k)
+						default:
+							fmt.Fprintf(&src, "  | %s -> %d\n", caseNames[c], k)
+						}
+					}
+					if def {
+						src.WriteString("  | _ -> 99\n")
+					}
+					wantAccept := def || len(covered) == n
+					os.WriteFile(filepath.Join(dir, "m.fo"), []byte(src.String()), 0o644)
+					os.Remove(filepath.Join(dir, "gen_m.go"))
+					fr := runFc(bin, dir, "m.fo")
+					tried++
+					_, statErr := os.Stat(filepath.Join(dir, "gen_m.go"))
+					accepted := fr.exit == 0 && statErr == nil
+					if accepted != wantAccept || (!wantAccept && statErr == nil) {
+						fmt.Fprintf(&b, "REPLAY-REPRODUCED source=witness-search tried=%d\n  fc %s this program although the match %s (exit %d, output %q):\n%s\n", tried,
+							map[bool]string{true: "ACCEPTS", false: "REJECTS"}[accepted], map[bool]string{true: "covers every case or has a default", false: "has no default and omits a case"}[wantAccept], fr.exit, strings.TrimSpace(fr.out), indent(src.String()))
+						return &replayResult{Text: b.String(), Reproduced: true}
+					}
+					if tried >= 400 {
+						break
+					}
+				}
+			}
+		}
+	}
+	fmt.Fprintf(&b, "REPLAY-NOT-REPRODUCED tried=%d programs (unions of 1..3 cases)\n", tried)
+	return &replayResult{Text: b.String()}
+}
+
+func indent(s string) string {
+	return "    " + strings.ReplaceAll(strings.TrimRight(s, "\n"), "\n", "\n    ")
+}
